@@ -1,0 +1,41 @@
+//go:build verif
+
+// Contracts for deductive verification (comment-only; compiled only with -tags verif).
+// Syntax and semantics: /verif/DESIGN.md §2.6 and Appendix A.
+
+package ante
+
+//@ func (RedundantBridgeDecorator) AnteHandle
+//@   let mode := ($isCheckTx || $isReCheckTx) && !simulate
+//@   let msgs := txMsgs(tx)
+//@   let n0 := seqOr1(NextL1Sequence)
+//@   ensures !mode ==> $nextCalled == 1 && $depositCalls == 0                                                                   // C20: nothing_enforced_outside_checking
+//@   ensures mode && $nextCalled == 1 ==> !((exists j int :: 0 <= j && j < len(msgs) && isType(msgs[j], "*github.com/initia-labs/OPinit/x/opchild/types.MsgFinalizeTokenDeposit")) && seqOr1(NextL1Sequence) == n0)   // C20: all_stale_deposit_tx_is_rejected
+//@   ensures mode && $nextCalled == 0 && seqOr1(NextL1Sequence) > n0 ==> $errFromDeposit                                         // C20: tx_with_fresh_deposit_passes
+//@   ensures mode && $nextCalled == 0 && !$errFromDeposit ==> err == ErrRedundantTx                                              // C20: rejection_is_redundancy_error
+//@   loop 0 invariant 0 <= $i && $i <= len(msgs) && 0 <= redundancies && redundancies <= packetMsgs && packetMsgs <= $i
+//@   loop 0 invariant seqOr1(NextL1Sequence) == n0 + (packetMsgs - redundancies)
+//@   loop 0 invariant packetMsgs > 0 <==> (exists j int :: 0 <= j && j < $i && isType(msgs[j], "*github.com/initia-labs/OPinit/x/opchild/types.MsgFinalizeTokenDeposit"))
+//@   assigns \everything
+
+// CombinedMinGasPrices and computeRequiredFees are used by contract in the checker below; their own bodies
+// (coin-list algebra of the SDK) are verified separately against the A-COIN model where listed in
+// /verif/spec/properties.json, otherwise these two contracts are assumptions reported in the evidence.
+//@ func CombinedMinGasPrices
+//@   opt trusted
+//@   ensures r == combinedMin(minGasPrices, configMinGasPrices)
+//@   assigns \nothing
+
+//@ func computeRequiredFees
+//@   opt trusted
+//@   ensures r == requiredFees(gas, minGasPrices)
+//@   assigns \nothing
+
+//@ func (MempoolFeeChecker) CheckTxFeeWithMinGasPrices
+//@   let floor := combinedMin($nodeMinGasPrices, val(Params).MinGasPrices)
+//@   ensures !$isCheckTx && implements(tx, "github.com/cosmos/cosmos-sdk/types.FeeTx") ==> err == nil                              // C20: nothing_enforced_outside_checking
+//@   ensures $isCheckTx && err == nil ==> Params != None && (decCoinsIsZero(floor) || coinsIsAnyGTE(txFee(tx), requiredFees(txGas(tx), floor)))   // C20: admitted_only_with_sufficient_fee_in_some_denom
+//@   ensures $isCheckTx && Params != None && implements(tx, "github.com/cosmos/cosmos-sdk/types.FeeTx") && decCoinsIsZero(floor) ==> err == nil   // C20: zero_floors_admit_any_fee
+//@   ensures $isCheckTx && Params != None && implements(tx, "github.com/cosmos/cosmos-sdk/types.FeeTx") && coinsIsAnyGTE(txFee(tx), requiredFees(txGas(tx), floor)) ==> err == nil   // C20: sufficient_fee_is_admitted
+//@   ensures err == nil ==> ret0 == txFee(tx) && ret1 == 1
+//@   assigns \nothing
